@@ -264,6 +264,38 @@ def gen_switch(rng):
     return case
 
 
+def gen_genint(rng):
+    """a general integer variable that a >=-type row keeps at 2 or more (integral at the LP root) next to 0/1 variables that are
+    fractional there: heuristics that treat "the values to be rounded" as a 0/1 vector must not touch the large one"""
+    nb = rng.randint(1, 2)                      # 0/1 variables
+    n = 2 + nb                                  # x1 = general integer, x2 = continuous or integer helper, then the 0/1 ones
+    k = rng.randint(2, 3)
+    U = k + rng.randint(0, 2)
+    a = [rng.randint(2, 4) for _ in range(nb)]
+    rows = [[1, 0] + a, [-1, rng.randint(1, 4)] + [0] * nb]
+    rhs = [k + rng.randint(1, max(1, sum(a) - 1)), -k]
+    ub = [U, 2] + [1] * nb
+    for j in range(n):
+        row = [0] * n
+        row[j] = 1
+        rows.append(row)
+        rhs.append(ub[j])
+    c = [rng.randint(0, 2), rng.randint(0, 2)] + [-rng.randint(2, 6) for _ in range(nb)]
+    order = list(range(len(rows)))
+    rng.shuffle(order)
+    cv = rng.choice([2, 2, 0])
+    ints = [j for j in range(1, n + 1) if j != cv]
+    configs = [{"minimize": True}, {"minimize": True, "lns_iterations": 3, "seed": 2}, {"minimize": True, "warm": [0.5] * n},
+               {"minimize": True, "solution_limit": 2}, {"minimize": True, "heuristics": False}]
+    case = {"A": [rows[i] for i in order], "b": [rhs[i] for i in order], "c": c, "ints": ints, "cv": cv, "ub": ub, "configs": configs,
+            "floats": rng.random() < 0.5}
+    if rng.random() < 0.4:
+        case["c"] = [-v for v in c]
+        for cfg in configs:
+            cfg["minimize"] = False
+    return case
+
+
 def gen_pairrows(rng):
     """binaries with explicit x_j <= 1 rows (so bounds are tightened and up-branches FIX variables at 1), rows that involve only
     two of the integer variables with a fractional LP optimum, and at least one more variable that stays free meanwhile"""
